@@ -87,6 +87,8 @@ type Engine struct {
 	quiet       bool
 	deadline    time.Time
 	noMerge     bool
+	nStates     uint64
+	airIDs      []uint64
 	merges      atomic.Int64
 	mergeAborts atomic.Int64
 }
